@@ -25,6 +25,13 @@ CMPSETS = {
     "percent_100|number_1": [("percent", 1.0), ("number", 1)],
     "default": None,
 }
+_GENERAL = list(CMPSETS)          # the comparator sets every family of space B is crossed with
+CMPSETS.update({
+    # a threshold of zero is a threshold: every pair is similar (used in space C only, where the document root is a node as well)
+    "number_0": [("number", 0)], "percent_0": [("percent", 0.0)],
+    # thresholds whose percentage is not a whole number of percent in binary (0.29 * 100 = 28.999..., 0.58 * 100 = 57.999...)
+    "percent_29": [("percent", 0.29)], "percent_58": [("percent", 0.58)],
+})
 
 
 class TableCmp(ModelCmp):
@@ -67,11 +74,20 @@ def _cases(tier):
                 yield {"space": "C", "first": [a, b], "second": [c], "cmp": cname, "wrap": "obj_or_list"}
     # families with repeated key sets: identical key sets are similar only if a configured comparator says so
     for ks in KEYSETS:
-        for cname in CMPSETS:
+        for cname in _GENERAL:
             yield {"space": "B", "sets": [ks, ks], "cmp": cname}
             for other in KEYSETS[::3]:
                 if other != ks:
                     yield {"space": "B", "sets": [ks, other, ks], "cmp": cname}
+    # pairs whose shared-key ratio lies just below / at / above such a threshold (2/7 = 0.2857 < 0.29 <= 3/10; 4/7 = 0.571 < 0.58 <= 7/12)
+    for cname, sets in (("percent_29", ["abcd", "abefg"]), ("percent_29", ["abcdef", "abcghij"]), ("percent_29", ["abc", "abde", "fg"]),
+                        ("percent_58", ["abcde", "abcdfg"]), ("percent_58", ["abcdefg", "abcdefghijkl"]), ("percent_58", ["abcd", "abce", "fgh"]),
+                        ):
+        yield {"space": "B", "sets": sets, "cmp": cname}
+    for first in (["ab", "cd"], ["a", "bc", "def"], ["abc", "abd"], ["abcd", "e"]):
+        for cname in ("number_0", "percent_0", "exact|number_3"):
+            yield {"space": "C", "first": first, "second": [], "cmp": cname}
+            yield {"space": "C", "first": first, "second": ["xyz"], "cmp": cname}
     # keys whose text contains the separators a careless identity of a key SET would use (", ", ",", "|", " "): distinct key sets stay
     # distinct whatever their joined spelling
     pk = ["a", "b", "c", "a,b", "b,c", "a, b", "a|b", "a b"]
@@ -86,7 +102,7 @@ def _cases(tier):
                 yield {"space": "B", "sets": [list(x) for x in sets], "cmp": cname}
     for k in range(2, fam + 1):
         for sets in itertools.combinations(KEYSETS, k):
-            for cname in CMPSETS:
+            for cname in _GENERAL:
                 if tier == "quick" and k == 3 and cname in ("percent_50|number_3", "percent_100|number_1", "number_3"):
                     continue
                 yield {"space": "B", "sets": list(sets), "cmp": cname}
